@@ -679,7 +679,20 @@ fn boundary_rich_input(ctx: &mut Ctx) -> (Vec<u8>, String) {
     }
 }
 
+/// Every window with an extreme rolling-hash value alone, three times and forty times.
+fn extreme_sweep(ctx: &mut Ctx) -> R {
+    for (val, w) in gen::extreme_words() {
+        for reps in [1usize, 2, 3, 40] {
+            let data: Vec<u8> = std::iter::repeat(w).take(reps).flatten().collect();
+            let desc = format!("the 7-byte window {} (rolling hash {:#010x}) x{}", crate::util::hex(&w), val, reps);
+            c01_one(ctx, &data, &desc)?;
+        }
+    }
+    Ok(())
+}
+
 pub fn c01(ctx: &mut Ctx) -> R {
+    extreme_sweep(ctx)?;
     // reused generator objects: the documented reset() only re-initialises what a new history needs
     for _ in 0..2 {
         reuse_history(ctx, "C01: reused generator")?;
@@ -703,6 +716,9 @@ pub fn c01(ctx: &mut Ctx) -> R {
         let (d2, desc2) = boundary_rich_input(ctx);
         c01_one(ctx, &d2, &desc2)?;
         declared_correct_midway(ctx, &d2, &desc2)?;
+        let (d3, desc3) = gen::extreme_input(&mut ctx.rng);
+        c01_one(ctx, &d3, &desc3)?;
+        declared_correct_midway(ctx, &d3, &desc3)?;
         if round % 32 == 0 {
             reuse_history(ctx, "C01: reused generator")?;
         }
@@ -821,7 +837,7 @@ pub fn c03(ctx: &mut Ctx) -> R {
             reuse_history(ctx, "C03: reused generator, mixed update forms")?;
         }
         let max_n = if round % 8 == 0 { 9 } else { 4 };
-        let (data, desc) = gen::gen_input(&mut ctx.rng, max_n);
+        let (data, desc) = if round % 3 == 2 { gen::extreme_input(&mut ctx.rng) } else { gen::gen_input(&mut ctx.rng, max_n) };
         ctx.input();
         // if the one-shot form is already wrong this is a C01 matter, but still a disagreement
         ctx.checks.extend(GENERATOR_CHECKS);
@@ -1047,6 +1063,7 @@ fn c12_history(ctx: &mut Ctx, log: &mut String) -> Option<(&'static str, String)
 
 pub fn c13(ctx: &mut Ctx) -> R {
     // constants of the size contract
+    extreme_sweep(ctx)?;
     ctx.check("max-input-size-constant", Generator::MAX_INPUT_SIZE == oracle::MAX_INPUT, || {
         format!("real code: Generator::MAX_INPUT_SIZE = {}\noracle: 192 GiB = {}", Generator::MAX_INPUT_SIZE, oracle::MAX_INPUT)
     })?;
@@ -1090,6 +1107,14 @@ pub fn c13(ctx: &mut Ctx) -> R {
             return Err(fail_oneshot(&data, &desc));
         }
         declared_correct_midway(ctx, &data, &desc)?;
+        {
+            let (d3, desc3) = gen::extreme_input(&mut ctx.rng);
+            ctx.input();
+            if diff_oneshot(&d3).is_some() {
+                return Err(fail_oneshot(&d3, &desc3));
+            }
+            declared_correct_midway(ctx, &d3, &desc3)?;
+        }
         if round % 5 == 1 {
             high_declared_sizes(ctx, "C13: declared sizes up to 192 GiB, pieces at every level")?;
             refused_declaration(ctx, "C13")?;
